@@ -239,6 +239,7 @@ CHECKS["C20"] = {
     "units": [
         {"name": "nested-selectors", "run": "^TestC20NestedSelectors$", "kind": "plain"},
         {"name": "binder-nested", "run": "^TestC20BinderNested$", "kind": "plain"},
+        {"name": "containers", "run": "^TestC20Containers$", "kind": "rapid", "race": True, "checks": {"quick": 3000, "thorough": 80000}, "shards": {"quick": 4, "thorough": 16}},
         {"name": "by-value", "run": "^TestC20ByValue$", "kind": "plain"},
         {"name": "regress", "run": "^TestC20Regress$", "kind": "plain"},
         {"name": "typed", "run": "^TestC20Typed$", "kind": "rapid", "checks": {"quick": 8000, "thorough": 240000}, "shards": {"quick": 8, "thorough": 16}},
